@@ -342,7 +342,8 @@ class Report:
                                    "the search over model and implementation found no concrete failing input"}, fh, indent=1)
             lines.append("VIOLATION property=%s replay=%s no-failing-input-found" % (self.pid, path))
             viol = len(self.broken)
-        self.write_evidence(viol, [k for k in known_hit])
+        if not getattr(self, "is_replay", False):      # a replay re-runs one input: it must not replace the run's record
+            self.write_evidence(viol, [k for k in known_hit])
         for l in lines:
             print(l)
         sys.stdout.flush()
